@@ -79,15 +79,7 @@ func isWaitGroupGo(in ssa.Instruction) bool {
 
 // multiSpawns: go statements, errgroup.Go and sync.WaitGroup.Go calls of f.
 func multiSpawns(f *ssa.Function) []ssa.Instruction {
-	out := spawnSites(f)
-	for _, b := range f.Blocks {
-		for _, in := range b.Instrs {
-			if isWaitGroupGo(in) {
-				out = append(out, in)
-			}
-		}
-	}
-	return out
+	return spawnSites(f)
 }
 
 func workSignature(h *ssa.Function) bool {
